@@ -322,6 +322,9 @@ func RunCheck(o CheckOpts) int {
 		"integers: mathematical Int with explicit mod-2^w wrap for unsigned types; signed +,-,* carry an overflow obligation",
 		"slice/string lengths are at most 2^48 (runtime maxAlloc)",
 		"package-level variables are constant after init",
+		"objects allocated by the function under verification whose address was never stored, boxed or handed to other code are out of reach of callees (syntactic escape analysis, priv.go); captured variables that nothing can write after the closure's creation are treated the same (fragment.go)",
+		"calls to helpers of this module that have no contract are executed in place when loop-free and small; their own nil/bounds/overflow/type-assertion conditions are assumed (each such call is listed as a note)",
+		"`captured` clauses are proved on the creating basic block of the enclosing function started from an arbitrary state; that function's own safety conditions on the way are assumed",
 		"no liveness/termination unless a decreases clause is discharged")
 	// thorough tier: every stored witness of the property (the inputs / schedules that exposed
 	// the defects found so far, plus boundary cases) is replayed against the real code; a
